@@ -16,6 +16,7 @@ import traceback
 
 ROOT = os.path.dirname(os.path.dirname(os.path.abspath(__file__)))
 REPO = os.environ.get("QUANTO_REPO", "/repo")
+OUT = os.environ.get("VERIF_OUT", ROOT)  # evidence/ and replays/ go here (mutant runs are redirected elsewhere)
 
 
 # ---------------------------------------------------------------------------------------------- case results
@@ -151,7 +152,7 @@ def run_cases(modname, cases, seed, jobs=None, deadline=300.0):
 
 # ---------------------------------------------------------------------------------------------- replay
 def replay_candidate(pid, modname, cand, case, idx):
-    d = os.path.join(ROOT, "replays", pid)
+    d = os.path.join(OUT, "replays", pid)
     os.makedirs(d, exist_ok=True)
     path = os.path.join(d, f"{idx}.json")
     with open(path, "w") as f:
@@ -287,8 +288,8 @@ def main(pid, modname, argv=None):
         wall_s=round(wall, 2),
         violations=len(violations),
     )
-    os.makedirs(os.path.join(ROOT, "evidence"), exist_ok=True)
-    with open(os.path.join(ROOT, "evidence", f"{pid}.json"), "w") as f:
+    os.makedirs(os.path.join(OUT, "evidence"), exist_ok=True)
+    with open(os.path.join(OUT, "evidence", f"{pid}.json"), "w") as f:
         json.dump(ev, f, indent=1, default=str)
     print(f"[{pid} {tier}] cases={len(results)} queries={nq} {verdicts} side={ev['coverage']['side_conditions']} replays={replays_confirmed}/{replays_attempted} inconclusive={len(inconclusive)} errors={len(errors)} wall={wall:.1f}s solver={solver_s:.1f}s")
     if violations:
